@@ -16,7 +16,9 @@ OtherLists == { List(<<S(<<97>>), S(<<98>>)>>), List(<<U(1), U(2)>>), List(<<Boo
 Lists == IntLists \cup OtherLists
 KA == S(<<97>>)  KB == S(<<98>>)
 Maps == { Map(<<>>), Map(<< <<KA, I(1)>> >>), Map(<< <<KA, I(1)>>, <<KB, I(2)>> >>), Map(<< <<I(1), KA>>, <<I(2), KB>> >>),
-          Map(<< <<U(1), I(1)>> >>), Map(<< <<Bool(TRUE), I(1)>> >>), Map(<< <<KA, LI(<<1, 2>>)>> >>), Map(<< <<KA, Map(<< <<KB, I(7)>> >>)>> >>) }
+          Map(<< <<U(1), I(1)>> >>), Map(<< <<Bool(TRUE), I(1)>> >>),
+          \* present keys whose values are zero / false / empty: present all the same
+          Map(<< <<KA, I(0)>>, <<KB, Bool(FALSE)>> >>), Map(<< <<KA, S(<<>>)>>, <<KB, LI(<<>>)>> >>), Map(<< <<KA, Null>> >>), Map(<< <<KA, LI(<<1, 2>>)>> >>), Map(<< <<KA, Map(<< <<KB, I(7)>> >>)>> >>) }
 Keys == { KA, KB, S(<<122, 122>>), I(1), I(2), I(3), U(1), U(2), Bool(TRUE), Bool(FALSE) }
 BadKeys == { Null, LI(<<1>>), Bytes(<<97>>), [t |-> "double", c |-> "fin", neg |-> FALSE, m |-> <<1>>, e |-> 0] }
 Strings == { S(<<>>), S(<<97>>), S(<<97, 98>>), S(<<98, 97>>), S(<<97, 98, 97>>), S(<<233>>), S(<<97, 128049>>), S(<<128049>>), S(<<128049, 98>>) }
@@ -49,6 +51,9 @@ Programs(f) ==
     [] f = "mapctor" -> { MapE(<< <<Lit(k1), Lit(I(1))>>, <<Lit(k2), Lit(I(2))>> >>) : k1 \in Keys \cup BadKeys, k2 \in Keys }
                         \cup { Idx(MapE(<< <<Lit(k1), Lit(I(1))>>, <<Lit(k2), Lit(I(2))>> >>), Lit(k2)) : k1 \in Keys, k2 \in Keys }
                         \cup { ListE(<<Lit(a), Lit(b)>>) : a \in Elems, b \in Elems }
+                        \* a repeated key is an error also when both entries hold the very same value (a variable's)
+                        \cup { Macro("map", Lit(LI(<<7, 8>>)), "x", MapE(<< <<Lit(k1), X>>, <<Lit(k2), X>> >>)) : k1 \in {KA, KB}, k2 \in {KA, KB} }
+                        \cup { Macro("map", Lit(LI(<<7>>)), "x", MapE(<< <<X, X>>, <<X, X>> >>)) }
     [] f = "strfn" -> { MCall(Lit(s), g, <<Lit(t)>>) : s \in Strings, t \in Strings, g \in {"contains", "startsWith", "endsWith"} }
     [] f = "macro" -> { Macro(m, Lit(l), "x", p) : m \in {"all", "exists", "exists_one", "filter"}, l \in IntLists, p \in Preds }
                       \cup { Macro("map", Lit(l), "x", b) : l \in IntLists, b \in MapBodies }
